@@ -26,6 +26,18 @@ PROPS = {
         "explanation": "theorems: set semantics + canonicity of union/intersection/merge(op)/difference/complement/normalize and of the "
                        "lazy and/or/xor/minus/not/degrade models; correspondence: model = code on the generated inputs",
     },
+    "C02": {
+        "trusted_base": COMMON_TB,
+        "assumptions": COMMON_ASSUME + [
+            "geometry constructors (from_cone/from_zone/from_polygon) are NOT modelled: their outputs are only run through the executable validB (a test, counted under producer:*(test-only))"],
+        "rule": "random operator trees (height 1..5 quick / 1..8 thorough) over and/or/xor/minus/not/degrade with leaves from the whole-domain "
+                "small scope or boundary-biased random MOCs, 9 (quantity,width) combinations, 6 leaf source kinds; evaluated by the real eager "
+                "methods (expr_e) and by the real lazy iterators wrapped in CheckedIterator (expr_l); the Lean validB (proved ⇔ Valid) judges "
+                "EVERY intermediate node result and the outputs of constructors, builders, adapters and geometry constructors. "
+                "distinct_nontrivial = distinct op lines with more than one leaf / a non-empty MOC.",
+        "explanation": "theorems: eval_valid (induction over programs), per-operator Valid preservation, unique normal form; "
+                       "correspondence: model eval = code on random programs + validB on every produced MOC",
+    },
 }
 
 
@@ -40,6 +52,8 @@ def judge(prop, op, impl, model, driver_eval):
     name = op.split(" ")[0]
     if impl == "panic":
         return True, "the implementation panicked on an input on which the (proved total) model answers " + model
+    if name == "valid":
+        return True, "the implementation produced a MOC that is not canonical / not inside the domain / not aligned on its declared depth (validB = false)"
     if name.startswith("l_"):
         fi, fm = _fields(impl), _fields(model)
         if len(fi) != 4 or len(fm) != 4:
